@@ -181,7 +181,7 @@ let pr fmt = Printf.bprintf out fmt
 let jclass_name j = match int_of_n (jclass_id j) with
   | 0 -> "comment" | 1 -> "unknown-keyword" | 2 -> "no-argument" | 3 -> "unprintable" | 4 -> "overlong"
   | 5 -> "nameserver-tokens" | 6 -> "sortlist-token" | 7 -> "options-plain" | 8 -> "options-numeric"
-  | 9 -> "search-empty" | _ -> "lookup-noword"
+  | 9 -> "search-empty" | 10 -> "lookup-noword" | _ -> "sortlist-mask"
 
 (* judge the junk-marked units with the extracted grammar: Some classes when every marked line is
    junk (and there is one), None otherwise *)
@@ -471,12 +471,57 @@ let run_fn k c impl =
        (* the C function may have applied earlier options before failing; only ENOMEM on the empty
           string exists in the model, where nothing was applied *)
        cmp k "setopt" (Printf.sprintf "st=%d ndots=1 tries=0 timeout=0 rotate=0 usevc=0" st) impl);
+    (* the implementation against resolv.conf(5) / ares_init_options(3) alone, for a single
+       "name:N" with N a plain decimal number of at most nine digits: ndots:N gives min(N,15),
+       attempts/retry:N gives N, timeout/retrans:N gives N seconds; N = 0 (and a timeout that does
+       not fit 32 bits of milliseconds) leaves the defaults.  Catches a value narrowed before use. *)
+    (match String.index_opt arg ':' with
+     | Some i when i > 0 ->
+       let name = String.sub arg 0 i and v = String.sub arg (i + 1) (String.length arg - i - 1) in
+       let isnum = v <> "" && String.length v <= 9 && String.for_all (fun ch -> ch >= '0' && ch <= '9') v in
+       if isnum && List.mem name ["ndots"; "attempts"; "retry"; "timeout"; "retrans"] then begin
+         let n = int_of_string v in
+         let want_ndots = if name = "ndots" then min n 15 else 1
+         and want_tries = if (name = "attempts" || name = "retry") && n > 0 then n else 0
+         and want_to = if (name = "timeout" || name = "retrans") && n > 0 && n <= 4294967 then n * 1000 else 0 in
+         match impl_line impl k "setopt" with
+         | Some l -> let f = fields l in
+           let got key = try int_of_string (fget f key) with _ -> -1 in
+           if got "ndots" <> want_ndots || got "tries" <> want_tries || got "timeout" <> want_to then
+             pr "FAIL %d option-value opt=%s ndots=%d/%d tries=%d/%d timeout=%d/%d\n" k arg (got "ndots") want_ndots (got "tries") want_tries (got "timeout") want_to
+         | None -> ()
+       end
+     | _ -> ());
     "fn-setopt"
   | Some "sortlist" ->
     (match un (parse_sortlist inet_fns (bytes_of_str arg)) with
      | Stdlib.Ok l -> cmp k "sortlist" ("st=0 list=" ^ (if l = [] then "-" else String.concat "," (List.map (fun p -> addr_hex p.ap_addr ^ "/" ^ zs p.ap_mask) l))) impl
      | Stdlib.Error st -> cmp k "sortlist" (Printf.sprintf "st=%d list=-" st) impl);
     "fn-sortlist"
+  | Some "setsort" ->
+    let env = env_of c ~with_junk:true ~reinit:false ~defifs:None in
+    let show (ch : chan) = if ch.c_sortlist = [] then "-" else String.concat "," (List.map (fun p -> addr_hex p.ap_addr ^ "/" ^ zs p.ap_mask) ch.c_sortlist) in
+    (match init_model { c with params = [] } env with
+     | Stdlib.Ok ch ->
+       (match un (chan_set_sortlist inet_fns ch (bytes_of_str "10.0.0.0/8 192.168.0.0/255.255.0.0")) with
+        | Stdlib.Ok (st0, ch1) ->
+          (match un (chan_set_sortlist inet_fns ch1 (bytes_of_str arg)) with
+           | Stdlib.Ok (st, ch2) ->
+             cmp k "setsort" (Printf.sprintf "st0=%s st=%s bit=%d sortlist=%s" (zs st0) (zs st)
+                                (if (int_of_z ch2.c_optmask) land (1 lsl 10) <> 0 then 1 else 0) (show ch2)) impl
+           | Stdlib.Error _ -> ())
+        | Stdlib.Error _ -> ())
+     | Stdlib.Error _ -> ());
+    (* the implementation against the specification alone: a prefix length above 128 or of more
+       than three digits is refused and the sortlist the channel had stays *)
+    if sortlist_has_bad_mask (bytes_of_str arg) then
+      (match impl_line impl k "setsort" with
+       | Some l -> let f = fields l in
+         if fget f "st" = "0" || fget f "sortlist" <> "0a000000/8,c0a80000/16" then
+           pr "FAIL %d sortlist-accepted st=%s sortlist=%s arg=%s\n" k (fget f "st") (fget f "sortlist")
+             (String.map (fun ch -> if ch <= ' ' || ch > '~' then '?' else ch) arg)
+       | None -> ());
+    "fn-setsort"
   | Some ("srv" | "srvstrict" as f) ->
     let aif = match impl_line impl k "srv" with Some l -> fget (fields l) "aif" = "1" | None -> false in
     let ifs = if pget c "poke" <> None || aif then Some vif else None in
